@@ -462,3 +462,158 @@ def model_check_variant(comp, rep, configs_op="Configs", emit=True, workers=1, t
          "states_generated": res.generated, "depth": res.depth, "edges": len(edges),
          "wall_s": round(res.wall_s, 2)})
     return res, edges, inits
+
+
+# ---------------------------------------------------------------------------------------
+# edge-cover planning that respects the component structure of the model graph
+
+def _sccs(nodes, out, target):
+    """Tarjan (iterative).  Returns {node: component index}; components are numbered in
+    reverse topological order (a component only reaches components with a smaller index)."""
+    index, low, comp = {}, {}, {}
+    stack, on = [], set()
+    counter = [0]
+    ncomp = [0]
+    for root in nodes:
+        if root in index:
+            continue
+        work = [(root, iter(out.get(root, ())))]
+        index[root] = low[root] = counter[0]
+        counter[0] += 1
+        stack.append(root)
+        on.add(root)
+        while work:
+            v, it = work[-1]
+            advanced = False
+            for j in it:
+                w = target[j]
+                if w not in index:
+                    index[w] = low[w] = counter[0]
+                    counter[0] += 1
+                    stack.append(w)
+                    on.add(w)
+                    work.append((w, iter(out.get(w, ()))))
+                    advanced = True
+                    break
+                elif w in on:
+                    low[v] = min(low[v], index[w])
+            if advanced:
+                continue
+            work.pop()
+            if work:
+                u = work[-1][0]
+                low[u] = min(low[u], low[v])
+            if low[v] == index[v]:
+                while True:
+                    w = stack.pop()
+                    on.discard(w)
+                    comp[w] = ncomp[0]
+                    if w == v:
+                        break
+                ncomp[0] += 1
+    return comp
+
+
+def plan_walks_scc(edges, max_len=300, tail=2, rng=None):
+    """Like vlib.comp.plan_walks (greedy edge cover by walks from the reset state), but a walk
+    leaves a strongly connected component of the model graph only when nothing uncovered is
+    left that it can still reach inside it - model graphs with one-way regions (a row that can
+    never become 0 again, overwritten initial contents) then need few resets instead of one
+    per handful of edges.  Returns [(cfg, [edge...])]; every edge is covered."""
+    from collections import deque
+    rng = rng or random.Random(0)
+    by_cfg = defaultdict(list)
+    for e in edges:
+        by_cfg[json.dumps(e["cfg"], sort_keys=True)].append(e)
+    walks = []
+    for ck, es in by_cfg.items():
+        out = defaultdict(list)
+        target = []
+        for i, e in enumerate(es):
+            out[json.dumps(e["from"], sort_keys=True)].append(i)
+            target.append(json.dumps(e["to"], sort_keys=True))
+        init = es[0].get("_init") or json.dumps(es[0]["from"], sort_keys=True)
+        nodes = list(out) + [t for t in target if t not in out]
+        comp = _sccs(nodes, out, target)
+        uncovered = set(range(len(es)))
+        unc_at = {s: set(ix) for s, ix in out.items()}
+
+        def bfs(cur, same_comp):
+            prev = {cur: None}
+            dq = deque([cur])
+            while dq:
+                s = dq.popleft()
+                for j in out.get(s, ()):
+                    t = target[j]
+                    if t in prev or (same_comp and comp[t] != comp[cur]):
+                        continue
+                    prev[t] = (s, j)
+                    if unc_at.get(t):
+                        path = []
+                        while prev[t] is not None:
+                            p, k = prev[t]
+                            path.append(k)
+                            t = p
+                        path.reverse()
+                        return path
+                    dq.append(t)
+            return None
+
+        while uncovered:
+            cur = init
+            walk = []
+            while len(walk) < max_len and uncovered:
+                cand = unc_at.get(cur)
+                if cand:
+                    # stay in the current component as long as possible (highest index = earliest)
+                    i = max(cand, key=lambda j: (comp[target[j]], -j))
+                    path = [i]
+                else:
+                    path = bfs(cur, True) or bfs(cur, False)
+                    if path is None:
+                        break
+                    if walk and len(walk) + len(path) > max_len:
+                        break
+                for j in path:
+                    walk.append(es[j])
+                    if j in uncovered:
+                        uncovered.discard(j)
+                        unc_at[json.dumps(es[j]["from"], sort_keys=True)].discard(j)
+                    cur = target[j]
+            if not walk:
+                raise tlc.MachineryError(f"{len(uncovered)} edges unreachable from the reset state")
+            for _ in range(tail):     # a short random continuation probes the last target state
+                if not out.get(cur):
+                    break
+                j = rng.choice(out[cur])
+                walk.append(es[j])
+                cur = target[j]
+            walks.append((json.loads(ck), walk))
+    return walks
+
+
+def replay_edges_scc(comp, edges, inits, rep, max_len=300, procs=None):
+    """vlib.comp.replay_edges with plan_walks_scc as planner (same per-walk replay, same
+    violation records)."""
+    from .comp import _replay_task
+    procs = procs or NPROCS
+    init_by_cfg = {json.dumps(i["cfg"], sort_keys=True): json.dumps(i["st"], sort_keys=True) for i in inits}
+    for e in edges:
+        e["_init"] = init_by_cfg.get(json.dumps(e["cfg"], sort_keys=True))
+    walks = plan_walks_scc(edges, max_len=max_len, rng=random.Random(rep.seed))
+    tasks = [(comp.module, comp.attr, cfg, walk) for cfg, walk in walks]
+    with mp.Pool(min(procs, max(1, len(tasks)))) as pool:
+        results = pool.map(_replay_task, tasks, chunksize=1)
+    nsteps = sum(len(w) for _, w in walks)
+    rep.add("replay_walks", len(walks))
+    rep.add("replay_cycles", nsteps)
+    for cfg, bad, sched, err in results:
+        if err:
+            rep.violation({"component": comp.name, "cfg": cfg, "clauses": ["ReplayException"], "what": err[-1500:]})
+        for b in bad:
+            rep.violation({"component": comp.name, "cfg": cfg, "clauses": ["EdgeReplay"],
+                           "what": "; ".join(b["problems"]), "step": b["step"], "schedule": sched[: b["step"] + 1],
+                           "model_from": b["from"], "model_label": b["lab"], "observed": b["line"]})
+    if walks:
+        rep.sample({"kind": "edge-walk", "cfg": walks[0][0], "labels": [w["lab"]["calls"] for w in walks[0][1][:4]]})
+    return walks
